@@ -1,5 +1,7 @@
 #!/bin/bash
-# usage: seed_eval.sh <Cxx> [check args]   — confirms a sub-agent's seeded change and runs the check on it
+# usage: [SEED_ROUND=2] seed_eval.sh <Cxx> [check args]   — confirms a sub-agent's seeded change and runs the check on it
+# Never uses `git stash`: the stash is shared by all worktrees of a repository, and concurrent sub-agents popped
+# each other's changes. The worktree is reset and the DELIVERED patch.diff is what gets applied and evaluated.
 export GOFLAGS=-mod=mod GOPROXY=off GOSUMDB=off GOTOOLCHAIN=local
 id=$1; shift
 lid=$(echo $id | tr 'A-Z' 'a-z')
@@ -7,20 +9,24 @@ r=${SEED_ROUND:-}   # SEED_ROUND=2 evaluates the second round (/tmp/wt2-Cxx, /tm
 wt=/tmp/wt$r-$id; sd=/tmp/seed$r-$id
 testdir=tests; [ "$id" = C13 ] && testdir=deploy
 cd $wt || exit 2
-if [ -z "$(git diff --stat)" ]; then echo "no source change in worktree; applying patch"; git apply $sd/patch.diff || exit 2; fi
-git diff > $sd/patch.confirmed.diff
-echo "== full suite with the change (demo skipped)"
-go test -vet=off -count=1 -skip 'TestSeed' ./... 2>&1 | grep -v "no test files" | grep -v "^ok" | head -5; suite=${PIPESTATUS[0]}
-echo "suite exit=$suite"
-echo "== demo with the change (must fail)"
-go test -vet=off -count=1 -run 'TestSeed' ./$testdir/ > $sd/demo_with.log 2>&1; with=$?
-echo "demo-with exit=$with"
-git stash -q
+[ -s $sd/patch.diff ] || { echo "no delivered patch.diff"; exit 2; }
+echo "== files touched by the delivered patch"; grep '^+++ ' $sd/patch.diff
+git checkout -q -- . || exit 2
+demo=$(ls $testdir/zz_seed*_test.go 2>/dev/null | head -1)
+if [ -z "$demo" ]; then cp $sd/demo_test.go $testdir/zz_seed${r}_${lid}_test.go; demo=$testdir/zz_seed${r}_${lid}_test.go; fi
 echo "== demo without the change (must pass)"
 go test -vet=off -count=1 -run 'TestSeed' ./$testdir/ > $sd/demo_without.log 2>&1; without=$?
 echo "demo-without exit=$without"
-git stash pop -q
+git apply $sd/patch.diff || { echo "delivered patch does not apply to a clean worktree"; exit 2; }
+cp $sd/patch.diff $sd/patch.confirmed.diff
+echo "== demo with the change (must fail)"
+go test -vet=off -count=1 -run 'TestSeed' ./$testdir/ > $sd/demo_with.log 2>&1; with=$?
+echo "demo-with exit=$with"
+echo "== full suite with the change (demo skipped)"
+go test -vet=off -count=1 -skip 'TestSeed' ./... 2>&1 | grep -v "no test files" | grep -v "^ok" | head -5; suite=${PIPESTATUS[0]}
+echo "suite exit=$suite"
 echo "== check on /repo with the change applied"
+[ -z "$(git -C /repo status --short)" ] || { echo "/repo is not clean"; exit 2; }
 git -C /repo apply $sd/patch.confirmed.diff || { echo "patch does not apply to /repo"; exit 2; }
 /verif/bin/neosym check $id "$@" > $sd/check.log 2>&1; chk=$?
 git -C /repo checkout -- .
